@@ -109,6 +109,9 @@ def check_cfg(ctx, fx, cfg):
             sites = [s.get("in") or s.get("param_of") for s in ent["sites"]]
             ctx.require(all(s in ctors or s in ctor_helpers for s in sites) and sites, "R05.6", "%s@%s" % (key, cfg), "a submit closure is created outside the channel constructors: %s" % [s for s in sites if s not in ctors], site=ent["sites"][0]["loc"] if ent["sites"] else None, detail=sites)
     # R05.9 closed list of crate types whose values keep an actor alive
+    import loops as _loops, timers as _timers
+    loop_defs = {f_["def"] for f_, _k in _loops.find_loops(fx)}
+    timer_defs = {f_["def"] for f_ in _timers.timer_coroutines(fx)}
     HOLDERS = {
         "addr::Addr": "strong handle kind", "addr::OwningAddr": "strong handle kind", "addr::sender::Sender": "strong handle kind", "addr::caller::Caller": "strong handle kind",
         "channel::Channel": "construction: the two submit closures before they are split up",
@@ -117,11 +120,33 @@ def check_cfg(ctx, fx, cfg):
         "actor::builder::StreamActorBuilder": "construction: holds the Channel until a terminal spawns",
         "context::Context": "child table only (R05.1)",
     }
+    LONG_LIVED = ("context::Context", "broker::Broker", "addr::Addr", "addr::OwningAddr", "addr::sender::Sender", "addr::caller::Caller", "addr::weak_addr::WeakAddr", "addr::weak_sender::WeakSender", "addr::weak_caller::WeakCaller")
+
+    def stored_long_lived(adt):
+        """is a value of this type kept inside something that outlives a call: a static, the context, the broker's state,
+        a handle, or something a loop / timer future owns?"""
+        short = adt.split("::")[-1]
+        needle = "/%s." % short
+        for s_ in fx.d.get("statics", []):
+            if adt in s_["ty"] or short in s_["ty"]:
+                return True
+        for o2 in fx.owns:
+            long_lived = (o2["kind"] == "adt" and o2["def"] in LONG_LIVED) or (o2["kind"] == "coroutine" and (o2["def"] in loop_defs or o2["def"] in timer_defs))
+            if not long_lived or o2["def"] == adt:
+                continue
+            for a2 in o2["atoms"]:
+                if any(needle in p2 for p2 in a2.get("paths", [])):
+                    return True
+        return False
     for o in fx.owns:
         if o["kind"] != "adt":
             continue
         ka = own.keepalive_atoms(o["atoms"])
-        if ka and o["def"] not in HOLDERS:
+        if ka and o["def"] not in HOLDERS and not stored_long_lived(o["def"]):
+            # a value type passed between functions (a named pair instead of a tuple, the parts of a channel on their
+            # way into the environment): it lives as long as the call that passes it
+            ctx.ok("R05.9", "holder:%s@%s" % (o["def"], cfg), fx.adts[o["def"]]["loc"] if o["def"] in fx.adts else None, "transient value type: stored in no static, context, broker or handle")
+        elif ka and o["def"] not in HOLDERS:
             c, p_, a = ka[0]
             ctx.viol("R05.9", "holder:%s@%s" % (o["def"], cfg), "a type outside the closed list holds a strong handle (its values keep actors alive): %s via %s" % (a["ty"][:80], a["paths"][0][:120]), fn=o["def"], site=fx.adts[o["def"]]["loc"] if o["def"] in fx.adts else None)
         elif ka:
